@@ -11,7 +11,7 @@
 (* None of this is attached to a property id: rejections are reported by   *)
 (* `./check X01` only, never as a VIOLATION of a listed property.          *)
 (***************************************************************************)
-EXTENDS Integers, Sequences, FiniteSets
+EXTENDS Integers, Sequences, FiniteSets, TLC
 
 Abs(x) == IF x < 0 THEN -x ELSE x
 Clamp(x, lo, hi) == IF x < lo THEN lo ELSE IF x > hi THEN hi ELSE x
@@ -162,6 +162,27 @@ RansacItStepOK(N, pk, prev, u) ==
                     ELSE XPow(a, prev) * XPow(2, pk) >= XPow(b, prev)
 RansacItOK(t) == /\ t.first
                  /\ \A j \in DOMAIN t.ups : RansacItStepOK(t.N, t.pk, IF j = 1 THEN t.maxIt ELSE t.ups[j - 1][3], t.ups[j])
+
+(* ---------------- MEstimator (regression/leastsquares): Huber weights from the median and the median absolute deviation, as coded: *)
+(* median = element n div 2 (0-based) of the sorted residuals, MAD = the same element of the sorted absolute deviations, threshold  *)
+(* 1.2107 max(1.4826 MAD, noise std); a datum is down-weighted (weight < 1) iff its deviation exceeds the threshold, and the value *)
+(* returned is the share of down-weighted data.  Integer residuals |r| <= 20 and integer noise std: 1.2107 * 1.4826 = 1.79498382   *)
+(* and no ratio of two integers up to 40 lies between 1.79498382 and 1.795, so the comparisons are exact in integers.  Each call    *)
+(* must depend on its own residuals only (the object keeps its buffers from one call to the next).                                *)
+MAbs(x) == IF x < 0 THEN -x ELSE x
+MestOK(t) ==
+    LET n == Len(t.r)
+        srt == SortSeq(t.r, LAMBDA x, y : x < y)
+        med == srt[(n \div 2) + 1]
+        dev == [j \in 1..n |-> MAbs(t.r[j] - med)]
+        mad == SortSeq(dev, LAMBDA x, y : x < y)[(n \div 2) + 1]
+        Down(j) == IF 14826 * mad >= 10000 * t.sd THEN dev[j] * 1000 > 1795 * mad ELSE dev[j] * 10000 > 12107 * t.sd
+    IN /\ t.ex
+       /\ t.cnt = (IF \E j \in 1..n : Down(j) THEN 1 ELSE 0)
+\* DEVIATION modelled as coded: the count is taken with Eigen's `.sum()` of a boolean array, which saturates at 1, so the value
+\* returned is 1/n when any datum is down-weighted and 0 otherwise.  The share the code's comment intends would be
+\* Cardinality({j \in 1..n : Down(j)}); with that line the recorded traces are rejected (first met: residuals
+\* <<-3,-20,0,14,17,-17,17,17,16>>, noise std 1: 4 data beyond the threshold, 1/9 returned).  Outside the listed properties.
 
 (* ---------------- durations (nanoseconds as the unit; values kept below 2^31) *)
 FromMicro(us) == us * 1000
